@@ -949,3 +949,161 @@ _RT = {'C01': [('mutant',
             '                perturbation.apply()\n                self.tolerancing.reset()')])]}
 for _p, _l in _RT.items():
     VARIANTS.setdefault(_p, []).extend(_l)
+
+
+# Second red-team round (wiring, polarisation frames, tolerancing trial record)
+_RT2 = {'C01': [('mutant',
+          'rt2-std-geo-swap',
+          [('optiland/surfaces/surface_factory.py',
+            'geometry = StandardGeometry(cs, radius, conic)',
+            'geometry = StandardGeometry(cs, conic, radius)')]),
+         ('mutant',
+          'rt2-cs-dx-dy',
+          [('optiland/surfaces/surface_factory.py',
+            'return CoordinateSystem(x=dx, y=dy, z=z, rx=rx, ry=ry)',
+            'return CoordinateSystem(x=dy, y=dx, z=z, rx=rx, ry=ry)')])],
+ 'C03': [('mutant',
+          'rt2-add-field-swap',
+          [('optiland/optic.py',
+            'new_field = Field(self.field_type, x, y, vx, vy)',
+            'new_field = Field(self.field_type, y, x, vx, vy)')]),
+         ('mutant',
+          'rt2-field-coords-ymax',
+          [('optiland/fields.py',
+            'return [(float(x/max_field), float(y/max_field))',
+            'return [(float(x/max_field), float(y/self.max_y_field))')]),
+         ('mutant',
+          'rt2-unit-mm',
+          [('optiland/wavelength.py',
+            "            'mm': 1000,\n"
+            "            'cm': 10000,\n"
+            "            'm': 1000000\n"
+            '        }\n'
+            '\n'
+            '        if self._unit in unit_conversion:\n'
+            '            conversion_factor = unit_conversion[self._unit]\n'
+            '            return self._value * conversion_factor\n'
+            '        else:\n'
+            "            raise ValueError('Unsupported unit for conversion to microns.')\n"
+            '\n'
+            '    def to_dict',
+            "            'mm': 100,\n"
+            "            'cm': 10000,\n"
+            "            'm': 1000000\n"
+            '        }\n'
+            '\n'
+            '        if self._unit in unit_conversion:\n'
+            '            conversion_factor = unit_conversion[self._unit]\n'
+            '            return self._value * conversion_factor\n'
+            '        else:\n'
+            "            raise ValueError('Unsupported unit for conversion to microns.')\n"
+            '\n'
+            '    def to_dict')])],
+ 'C14': [('twin',
+          'rt2-operand-value-args',
+          [('optiland/optimization/operand/operand.py',
+            'return metric_function(**self.input_data)',
+            'return metric_function(**dict(self.input_data))')]),
+         ('mutant',
+          'rt2-add-operand-swap',
+          [('optiland/optimization/optimization.py',
+            'self.operands.append(Operand(operand_type, target, weight, input_data))',
+            'self.operands.append(Operand(operand_type, weight, target, input_data))')]),
+         ('mutant',
+          'rt2-paraxial-operand-f1',
+          [('optiland/optimization/operand/paraxial.py',
+            'return optic.paraxial.f1()',
+            'return optic.paraxial.f2()')])],
+ 'C15': [('mutant',
+          'rt2-compensate-before-apply',
+          [('optiland/tolerancing/monte_carlo.py',
+            '            compensator_result = self.tolerancing.apply_compensators()\n'
+            '\n'
+            '            # evaluate operands\n'
+            '            operand_values = self.tolerancing.evaluate()',
+            '            operand_values = self.tolerancing.evaluate()\n'
+            '            compensator_result = self.tolerancing.apply_compensators()')]),
+         ('mutant',
+          'rt2-range-sampler-skip-first',
+          [('optiland/tolerancing/perturbation.py',
+            '        value = self.values[self.index]\n'
+            '        self.index += 1\n'
+            '        return value',
+            '        self.index += 1\n'
+            '        value = self.values[self.index - 0]\n'
+            '        return value')]),
+         ('mutant',
+          'rt2-compensator-other-operands',
+          [('optiland/tolerancing/core.py',
+            'self.compensator.operands = self.operands',
+            'self.compensator.operands = list(self.compensator.operands)')]),
+         ('twin',
+          'rt2-T-range-sampler-rename',
+          [('optiland/tolerancing/perturbation.py',
+            '        value = self.values[self.index]\n'
+            '        self.index += 1\n'
+            '        return value',
+            '        v = self.values[self.index]\n        self.index += 1\n        return v')])],
+ 'C17': [('mutant',
+          'rt2-pol-p1-handed',
+          [('optiland/rays/polarized_rays.py', 'p1 = np.cross(k1, s)', 'p1 = np.cross(s, k1)')]),
+         ('mutant',
+          'rt2-pol-oout-axis',
+          [('optiland/rays/polarized_rays.py',
+            'o_out = np.stack((s, p1, k1), axis=2)',
+            'o_out = np.stack((s, p1, k1), axis=1)')]),
+         ('mutant',
+          'rt2-pol-k0-from-current',
+          [('optiland/rays/polarized_rays.py',
+            'k0 = np.array([self.L0, self.M0, self.N0]).T',
+            'k0 = np.array([self._L0, self._M0, self._N0]).T')]),
+         ('mutant',
+          'rt2-pol-right-multiply',
+          [('optiland/rays/polarized_rays.py',
+            'self.p = np.matmul(p, self.p)',
+            'self.p = np.matmul(self.p, p)')]),
+         ('mutant',
+          'rt2-pol-einsum-order',
+          [('optiland/rays/polarized_rays.py',
+            "np.einsum('nij,njk,nkl->nil', o_out, jones_matrix, o_in)",
+            "np.einsum('nij,njk,nkl->nil', o_in, jones_matrix, o_out)")]),
+         ('mutant',
+          'rt2-pol-launch-s-sign',
+          [('optiland/rays/polarized_rays.py',
+            's = np.cross(p, k)\n',
+            's = np.cross(p, k) + k\n')]),
+         ('mutant',
+          'rt2-pol-launch-phase',
+          [('optiland/rays/polarized_rays.py',
+            'state.Ey * np.exp(1j * state.phase_y) * p)',
+            'state.Ey * np.exp(1j * state.phase_y) * s)')]),
+         ('mutant',
+          'rt2-pol-no-normalise',
+          [('optiland/rays/polarized_rays.py', '        s /= mag[:, np.newaxis]\n', '')]),
+         ('mutant',
+          'rt2-jones-offblock',
+          [('optiland/jones.py',
+            '            jones_matrix[:, 2, 2] = 1\n'
+            '\n'
+            '        return jones_matrix\n'
+            '\n'
+            '\n'
+            'class JonesPolarizerH',
+            '            jones_matrix[:, 2, 1] = 1\n'
+            '\n'
+            '        return jones_matrix\n'
+            '\n'
+            '\n'
+            'class JonesPolarizerH')]),
+         ('mutant',
+          'rt2-interact-no-update',
+          [('optiland/surfaces/standard_surface.py',
+            '            rays.update()\n',
+            '            pass\n')]),
+         ('twin',
+          'rt2-T-pol-rename',
+          [('optiland/rays/polarized_rays.py',
+            'p0 = np.cross(k0, s)\n        p1 = np.cross(k1, s)',
+            'p0 = -np.cross(s, k0)\n        p1 = -np.cross(s, k1)')])]}
+for _p, _l in _RT2.items():
+    VARIANTS.setdefault(_p, []).extend(_l)
